@@ -15,7 +15,7 @@ import (
 
 //verif:include ../dnsdata/rdb/zz_verif_model.go
 //verif:include ../db/zz_verif_world.go
-//verif:harness H10_echo property=C10 native=no quick=world=0,layout=2,edns=2,fam=1,cache=0;world=0,layout=0,edns=2,fam=2,cache=0;world=0,layout=1,edns=4,fam=1,cache=1;world=1,layout=2,edns=2,fam=1,cache=0;world=1,layout=0,edns=2,fam=1,cache=1 thorough=world=1,layout=0,edns=2,fam=2,cache=1;world=0,layout=0,edns=4,fam=1,cache=1;world=0,layout=1,edns=2,fam=2,cache=0;world=0,layout=2,edns=4,fam=2,cache=1;world=0,layout=2,edns=2,fam=0,cache=0;world=1,layout=1,edns=4,fam=1,cache=0
+//verif:harness H10_echo property=C10 native=no quick=world=0,layout=2,edns=2,fam=1,cache=0;world=0,layout=0,edns=2,fam=2,cache=0;world=0,layout=1,edns=5,fam=1,cache=1;world=1,layout=2,edns=2,fam=1,cache=0;world=1,layout=0,edns=2,fam=1,cache=1 thorough=world=0,layout=2,edns=5,fam=2,cache=0;world=0,layout=1,edns=4,fam=1,cache=1;world=1,layout=0,edns=2,fam=2,cache=1;world=0,layout=0,edns=4,fam=1,cache=1;world=0,layout=1,edns=2,fam=2,cache=0;world=0,layout=2,edns=4,fam=2,cache=1;world=0,layout=2,edns=2,fam=0,cache=0;world=1,layout=1,edns=4,fam=1,cache=0
 
 var verifC10Names = []string{"c.z.", "z.", "q.z.", "y.", "."}
 
@@ -69,10 +69,19 @@ func verifJudgeECS(resp *dns.Msg, hadOPT bool, fam uint16, mask, qscope uint8, a
 	}
 	a16 := addr.To16()
 	in20 := fam == 1 && mask >= 8 && a16[12] == 20
+	// a family-2 option may carry an IPv4-mapped address: the declared IPv4 subnet 20/8 is
+	// ::ffff:20.0.0.0/104 in the client's family
+	mapped := fam == 2 && a16[10] == 0xff && a16[11] == 0xff
+	for i := 0; i < 10; i++ {
+		mapped = mapped && a16[i] == 0
+	}
+	in20m := mapped && mask >= 104 && a16[12] == 20
 	inDB8 := fam == 2 && mask >= 32 && a16[0] == 0x20 && a16[1] == 0x01 && a16[2] == 0x0d && a16[3] == 0xb8
 	switch {
 	case in20:
 		nd.Assert(e.SourceScope == 8, tag+":scope-is-deciding-subnet-length")
+	case in20m:
+		nd.Assert(e.SourceScope == 104, tag+":scope-is-deciding-subnet-length-in-client-family")
 	case inDB8:
 		nd.Assert(e.SourceScope == 32, tag+":scope-is-deciding-subnet-length")
 	case fam == 1:
@@ -114,10 +123,6 @@ func H10_echo() {
 		q, ecs := verifBuildQuery(name, qtype, verifQueryOpts{edns: nd.Param("edns"), ecsFam: nd.Param("fam")})
 		o := q.IsEdns0()
 		nd.Assume(o.Version() == 0) // BADVERS replies are judged by C13
-		if ecs.Family == 2 {
-			// validity: a family-2 address is not IPv4-mapped
-			nd.Assume(ecs.Address.To4() == nil)
-		}
 		fam, mask, qscope := ecs.Family, ecs.SourceNetmask, ecs.SourceScope
 		addr := append(net.IP{}, ecs.Address...)
 		w := verifClient()
